@@ -293,6 +293,8 @@ func runQueryWire(c *Ctx, pr *PropertyRun, prop, pkg string) {
 
 	// ---- hrefs are decoded paths
 	urlParseRule(c, pr, prop, nil)
+	// ... written and read by an inverse pair (shared with C16.pairs)
+	c16Pairs(c, pr, prop, func(what string) bool { return what == "href" })
 
 	// ---- round trip
 	rt := NewRule(prop, prop+".roundtrip", "for every query within the bounds, the value the server's backend receives equals the value the caller handed to the client: decode o encode = id at struct level, both codecs interpreted from SSA (E2)")
